@@ -27,6 +27,8 @@ static void save_current(const std::vector<uint32_t> &w) {
 // Deterministic-ish work budget for pure CPU spins (DESIGN 2.6): a case may use at most VERIF_CASE_CPU_S seconds of *CPU* time
 // (virtual timer: only time this process actually runs counts), thousands of times the cost of any legitimate case.
 static long g_case_cpu_s = 150;
+static volatile sig_atomic_t g_stop = 0;   // SIGTERM from the driver (campaign wall-clock budget spent): finish the running case, skip the rest, report what was done
+static void on_term(int) { g_stop = 1; }
 static void on_vtalrm(int) {
   static const char m[] = "WORK-BUDGET exceeded: one case used more CPU time than the per-case budget (unbounded loop?)\n";
   if (write(2, m, sizeof m - 1) < 0) {}
@@ -49,7 +51,8 @@ static void dump_map(FILE *f, const char *name, const std::map<std::string, long
 }
 static void dump_report(const char *path, bool ok, double wall) {
   FILE *f = fopen(path, "w"); if (!f) return;
-  fprintf(f, "{\"property\":\"%s\",\"ok\":%s,\"evaluations\":%ld,\"shrink_evaluations\":%ld,\"wall_s\":%.3f,", prop_id(), ok ? "true" : "false", g_rep.evaluations, g_shrink_evals, wall);
+  fprintf(f, "{\"stopped\":%s,", g_stop ? "true" : "false");
+  fprintf(f, "\"property\":\"%s\",\"ok\":%s,\"evaluations\":%ld,\"shrink_evaluations\":%ld,\"wall_s\":%.3f,", prop_id(), ok ? "true" : "false", g_rep.evaluations, g_shrink_evals, wall);
   dump_map(f, "labels", g_rep.labels); fprintf(f, ",");
   dump_map(f, "excluded", g_rep.excluded); fprintf(f, ",");
   fprintf(f, "\"metrics\":{"); { bool first = true; for (auto &kv : g_rep.metrics) { fprintf(f, "%s\"%s\":%.9g", first ? "" : ",", jesc(kv.first).c_str(), kv.second); first = false; } } fprintf(f, "},");
@@ -66,7 +69,7 @@ static void dump_report(const char *path, bool ok, double wall) {
 int main(int argc, char **argv) {
   if (const char *e = getenv("VERIF_CASE_CPU_S")) g_case_cpu_s = atol(e);
   if (const char *e = getenv("VERIF_LEAKCHECK")) g_leakcheck = atoi(e) != 0;
-  signal(SIGVTALRM, on_vtalrm);
+  signal(SIGVTALRM, on_vtalrm); signal(SIGTERM, on_term);
   if (argc >= 3 && !strcmp(argv[1], "--replay")) {
     std::vector<uint32_t> w; if (!tape_load(argv[2], w)) { fprintf(stderr, "cannot read %s\n", argv[2]); return 3; }
     Tape t(w); Report r; arm_case_timer(true); bool ok = prop_run(t, r); arm_case_timer(false);
@@ -91,6 +94,7 @@ int main(int argc, char **argv) {
       std::vector<uint32_t> w = *headgen;
       { std::vector<uint32_t> tl = *tailgen; w.insert(w.end(), tl.begin(), tl.end()); }
       // bounded shrinking: once the probe budget is spent every further shrink candidate "passes" at once, which ends the search
+      if (g_stop) return;   // stopped by the driver: remaining cases are not run (and not counted)
       if (g_failed_once && (g_shrink_evals >= shrink_max || g_leak_fail)) return;   // a leak stays visible to LeakSanitizer for the rest of the process: later cases cannot be judged, keep the original tape
       save_current(w);
       Tape t(w); Report local;
